@@ -13,6 +13,16 @@ CHECKS = {
             "Every tuple in the stated box is run end to end through ladim.main and compared with the predicted file names, per-file record counts and record times, and the split run with the unsplit run. Complete inside the box (quick: nsteps<=9, period<=3, numrec<=3; thorough: 14/5/4), nothing outside it.",
             "Constant velocity, two particles, dt=60 s; netCDF4 is trusted to read back what was written.",
             "DESIGN.md section 3 C07"),
+    "C01": ("exploration",
+            "Hypothesis-generated analytic velocity fields, metrics and time steps; differential of Tracker.update against independent EF/RK2/RK4 references (one step, 1e-9 cell) + observed order of convergence vs a 64x finer reference",
+            "The real Tracker is driven with a plug-in analytic forcing (steady and time-dependent fields, dx != dy, dt 1 s..1 day, displacements up to 0.95 cell) and its one-step result compared with the scheme's prescription incl. the fractional times requested; trajectories at n, 2n, 4n steps must show order >= k-0.5; the analytic helpers get_velocity1/2/4 get the same two oracles.",
+            "Uniform metric per case via a plug-in grid (the stock ROMS grid returns dx for both directions); RK2 may be midpoint or Heun; order check is one-sided and only judged above a 1e-10 noise floor.",
+            "DESIGN.md section 3 C01"),
+    "C02": ("exploration",
+            "Hypothesis-generated synthetic ROMS files and positions; differential against an independent C-grid interpolator + convexity, linear-exactness and subgrid-vs-full-grid metamorphic relations",
+            "Synthetic grid/forcing files (sizes, N incl. 1, both transforms, random stretching, bathymetries, masks with garbage on land faces, f8/f4/packed storage, legal subgrids incl. negative spellings) are read by the real Grid and Forcing; velocity and scalar forcing at 24-48 positions (uniform, edges, corners, +-1 ulp, rim; depths on levels, above the surface, below the bottom) are compared with the reference, with the node range, with the closed form for linear fields, and between subgrid and full grid.",
+            "At exactly half-way positions either neighbouring cell is accepted as the particle's own cell; tolerance 1e-12 (f8) / 8*2^-23 (f4, packed).",
+            "DESIGN.md section 3 C02"),
     "C03": ("exploration",
             "Hypothesis-generated frame/file layouts; per-step differential against an independent 'lerp between bracketing frames' reference at static probes",
             "Frame layouts (gaps 1..12 steps incl. all-equal-to-dt, irregular), every kind of partition into files, start offsets, run lengths, both directions, 0-2 scalar fields, f4/f8 are generated; Forcing is driven step by step exactly as Model.update orders the calls, and velocity (also 0.5 and 1.0 step ahead) and scalars are compared with the reference after every step. Exploration: finds layout-dependent hand-over errors, proves nothing beyond the cases run.",
@@ -28,6 +38,11 @@ CHECKS = {
             "Generated simulations (multi-file forcing, release tables incl. continuous, scripted kills, lifetimes, out-of-grid flow, time-typed and other particle variables, sparse/dense, numrec, reference times, f4/f8) are run through ladim.main; every record of every file is compared with the snapshot taken when it was written, the count/time/particle-variable structure is checked, dense files must be filled exactly where a pid is not alive.",
             "The snapshot is taken in a subclass of the stock Output immediately before delegating to it; netCDF4 is trusted for reading.",
             "DESIGN.md section 3 C06"),
+    "C16": ("exploration",
+            "Hypothesis-generated fields/masks/positions against an independent masked-bilinear reference (sampler); generated polar-stereographic grids with round-trip and residual oracles (xy2ll/ll2xy); end-to-end lon/lat release and output",
+            "sample2D: value, convexity, exactness on bilinear fields, insensitivity to masked nodes, undefined and outside substitutes (incl. 0.0 and NaN), ValueError without substitute. Grid: ll2xy(xy2ll(p)) must return, stay inside the array and meet the solver's stopping residual and the grid-unit bound it implies. End to end: particles released by lon/lat start where the interpolated coordinates match, and lon/lat in every record equal the bilinear interpolation at that record's X, Y.",
+            "Sphere polar-stereographic grids 160 m..20 km, up to 60 (thorough 200) cells a side, not straddling +-180.",
+            "DESIGN.md section 3 C16"),
     "C12": ("exploration",
             "Hypothesis-generated vertical set-ups and depths checked against validity predicates (monotone, bounded, interleaved) and the clamped-interpolation identity",
             "s_stretch, sdepth, z2s and Grid.z_r/z_w (from file and from Vinfo) are evaluated on generated N, stretching parameters, transforms, hc, bathymetries and depths incl. exactly on levels and outside the range.",
